@@ -166,6 +166,12 @@ impl Monitor for Mon {
                         self.open_reason[i] = true;
                     }
                 }
+                (RClass::Indication, Target::Req(_)) if acceptable => {
+                    // an acceptable indication that carries the id of an awaiting request: whether the client hands it over
+                    // or refuses it as a stray is left open (C07 says "only if"); what it must not do - answer the request,
+                    // touch what is remembered about the request's responses - shows in the request's eventual outcome
+                    expectation = None;
+                }
                 (RClass::Indication, _) => {
                     if reply.mac == RMac::Both {
                         expectation = None; // not specified for indications
